@@ -52,6 +52,8 @@ CONTROL_OID = {
 
 
 def _s(x):
+    if isinstance(x, dict):  # {"hex": ...}: raw octets where text is expected (invalid UTF-8 from a byzantine peer)
+        return bytes.fromhex(x["hex"])
     return x.encode("utf-8")
 
 
